@@ -101,7 +101,7 @@ TRUSTED_EXTRA = [
 # sha1 over the regex literals of mako/lexer.py the model was written against (Generated/LexerCfg.lean holds the
 # current one).  A different fingerprint never changes a verdict: it only makes the quick tier run the per-matcher
 # enumerations at their thorough sizes (change-directed effort).
-MODELLED_FINGERPRINT = "4ac55a6ecba51f252f869ae9747621846d928461"
+MODELLED_FINGERPRINT = "e975eaf2f0f51b4994fc46e9adb835dfa83c95a0"
 
 
 def current_fingerprint():
